@@ -33,8 +33,13 @@ func outputFileMapper(dctx *kong.DecodeContext, target reflect.Value) error {
 		return fmt.Errorf("target file already exists")
 	}
 
-	f, err := os.OpenFile(path, os.O_WRONLY|os.O_CREATE, os.ModePerm)
+	// O_EXCL: file that appeared after the check above (i.e. another instance running with the same target) is not ours
+	f, err := os.OpenFile(path, os.O_WRONLY|os.O_CREATE|os.O_EXCL, os.ModePerm)
 	if err != nil {
+		if os.IsExist(err) {
+			return fmt.Errorf("target file already exists")
+		}
+
 		return err
 	}
 
